@@ -156,7 +156,7 @@ static void outside_probes(Rng& g, const DGroup& G, const Frame& f, std::vector<
 }
 
 static void run_off(Out& out, Rng& g, const DGroup& G, double d, int join, double tol, int64_t S, bool use_union,
-                    const std::string& scen, bool literal = false) {
+                    const std::string& scen) {
     bool err = false;
     DGroup R = call_offset(G, d, join, tol, S, use_union, err);
     Frame f;
@@ -216,14 +216,14 @@ static void run_off(Out& out, Rng& g, const DGroup& G, double d, int join, doubl
             }
             if (b[0][0] <= b[1][1] && b[1][0] <= b[0][1] && b[0][2] <= b[1][3] && b[1][2] <= b[0][3]) may_overlap = true;
         }
-    const char* mode = d > 0 ? "g" : (use_union || literal ? "u" : (may_overlap ? "r" : "e"));
-    if (d < 0 && (use_union || literal)) outside_probes(g, G, f, probes);
+    const char* mode = d > 0 ? "g" : (use_union ? "u" : (may_overlap ? "r" : "e"));
+    if (d < 0 && use_union) outside_probes(g, G, f, probes);
     std::string payload = "S " + hex_u64((uint64_t)S) + " K " + std::to_string(f.K) + " MODE " + mode + " RIN " +
                           hex_i128((i128)rin << f.K) + " ROUT " + hex_i128((i128)rout << f.K) + " G " + ser_group(G, f) + " R " +
                           ser_group(R, f) + " Q " + ser_points(probes) + " P " + ser_points(pts);
     // parameters, for replay (not used by the oracle)
     payload += " PARAM " + hex_dbl(d) + " " + std::to_string(join) + " " + hex_dbl(tol) + " " + (use_union ? "1" : "0");
-    std::string id = out.add(literal ? "offlit" : "off", payload);
+    std::string id = out.add("off", payload);
     out.count(std::string("off:mode:") + mode);
     out.count("off:scenario:" + scen);
     out.count(std::string("off:join:") + JOIN_NAME[join]);
@@ -276,7 +276,10 @@ static void run_uni(Out& out, Rng& g, const DGroup& G, double d, int join, doubl
     frame_add(f, R2);
     // slicing rounds the new vertices to the grid (boundary moves by up to a unit); a miter join
     // amplifies that by the miter limit
+    // ... and a round join approximates the arc only up to its resolution: two different vertex
+    // sets of the same region may place the chords differently (sagitta of 1.5 nominal steps)
     int64_t guard = join == 0 ? 3 + (int64_t)ceil(2 * tol) : 4;
+    if (join == 2) guard += (int64_t)ceil(fabs(d) * (double)S * (1.0 - cos(std::min(1.5 * M_PI / tol, M_PI / 2))));
     std::vector<const DGroup*> all{&G, &R1, &R2};
     double D = fabs(d) * (double)S;
     std::vector<FPt> pts = gen_samples(g, all, f, 12, 40, 160, D * 1.6 + 6);
@@ -353,9 +356,7 @@ static bool parse_i128s(const char*& s, i128& v) {
     return true;
 }
 static void run_case(Out& out, Rng& g, const std::string& kind, const std::string& payload) {
-    // "offlit": the property read literally for the group (depth measured in the covered region) even
-    // without the union option
-    if (kind != "off" && kind != "offlit") return;
+    if (kind != "off") return;
     const char* s = payload.c_str();
     i128 S;
     if (strncmp(s, "S ", 2) != 0) return;
@@ -386,7 +387,7 @@ static void run_case(Out& out, Rng& g, const std::string& kind, const std::strin
     unsigned long long db, tb;
     int join, un;
     if (sscanf(pp + 7, "%llx %d %llx %d", &db, &join, &tb, &un) != 4) return;
-    run_off(out, g, G, bits_dbl(db), join, bits_dbl(tb), (int64_t)S, un != 0, "replay", kind == "offlit");
+    run_off(out, g, G, bits_dbl(db), join, bits_dbl(tb), (int64_t)S, un != 0, "replay");
 }
 
 int main(int argc, char** argv) {
